@@ -15,6 +15,7 @@ import (
 	"flag"
 	"fmt"
 	"hash/crc32"
+	"io"
 	"os"
 	"path/filepath"
 	"sort"
@@ -218,6 +219,23 @@ func rlxDoc(s string) (bool, int) {
 	return skipWS(s, e) == len(s), d
 }
 
+// rlxStream: blank-separated (or directly adjacent) sequence of values up to the end of the input
+func rlxStream(s string) bool {
+	i := 0
+	for {
+		i = skipWS(s, i)
+		if i >= len(s) {
+			return true
+		}
+		d := 0
+		_, e := rlxValue(s, i, &d)
+		if e <= i {
+			return false
+		}
+		i = e
+	}
+}
+
 // rlxExact: s[a:b] is exactly one value (no surrounding blanks).
 func rlxExact(s string, a, b int) bool {
 	if a < 0 || b > len(s) || a >= b {
@@ -257,6 +275,72 @@ func embedded(wrapped string, dst interface{}) string {
 		ok, d := rlxDoc(wrapped)
 		return cls + ":" + b2s(ok) + ":" + b2s(json.Valid([]byte(wrapped))) + ":" + fmt.Sprint(d)
 	})
+}
+
+// typed destinations reaching every decoder opcode family that matches literal bytes: one field per kind, the
+// `,string` variants (OP_is_null_quote, OP_unquote, quoted numbers / bools), pointers, []byte, json.Number, interfaces
+type tWide struct {
+	Bo bool                   `json:"bo"`
+	I8 int8                   `json:"i8"`
+	I16 int16                 `json:"i16"`
+	I32 int32                 `json:"i32"`
+	I64 int64                 `json:"i64"`
+	U8 uint8                  `json:"u8"`
+	U16 uint16                `json:"u16"`
+	U32 uint32                `json:"u32"`
+	U64 uint64                `json:"u64"`
+	F32 float32               `json:"f32"`
+	F64 float64               `json:"f64"`
+	St string                 `json:"st"`
+	By []byte                 `json:"by"`
+	Nu json.Number            `json:"nu"`
+	An interface{}            `json:"an"`
+	Pt *int                   `json:"pt"`
+	Ps *string                `json:"ps"`
+	Sl []int                  `json:"sl"`
+	Ar [2]int                 `json:"ar"`
+	Mp map[string]int         `json:"mp"`
+	Em struct{}               `json:"em"`
+	In struct{ X *tWide }     `json:"in"`
+	Sbo bool                  `json:"sbo,string"`
+	Si int                    `json:"si,string"`
+	Si8 int8                  `json:"si8,string"`
+	Su uint64                 `json:"su,string"`
+	Sf float64                `json:"sf,string"`
+	Sf32 float32              `json:"sf32,string"`
+	Sst string                `json:"sst,string"`
+	Spi *int                  `json:"spi,string"`
+	Spb *bool                 `json:"spb,string"`
+	Spf *float64              `json:"spf,string"`
+	Sps *string               `json:"sps,string"`
+	Snu json.Number           `json:"snu,string"`
+}
+
+var wideFields = []string{"bo", "i8", "i16", "i32", "i64", "u8", "u16", "u32", "u64", "f32", "f64", "st", "by", "nu", "an", "pt", "ps",
+	"sl", "ar", "mp", "em", "in", "sbo", "si", "si8", "su", "sf", "sf32", "sst", "spi", "spb", "spf", "sps", "snu"}
+
+type textKey struct{ s string }
+
+func (k *textKey) UnmarshalText(b []byte) error { k.s = string(b); return nil }
+
+// map destinations for every key kind (OP_map_key_*): the document is fed as the KEY
+var mapKeyDsts = []struct {
+	name string
+	mk   func() interface{}
+}{
+	{"str", func() interface{} { return new(map[string]int) }},
+	{"i8", func() interface{} { return new(map[int8]int) }},
+	{"i16", func() interface{} { return new(map[int16]int) }},
+	{"i32", func() interface{} { return new(map[int32]int) }},
+	{"i64", func() interface{} { return new(map[int64]int) }},
+	{"u8", func() interface{} { return new(map[uint8]int) }},
+	{"u16", func() interface{} { return new(map[uint16]int) }},
+	{"u32", func() interface{} { return new(map[uint32]int) }},
+	{"u64", func() interface{} { return new(map[uint64]int) }},
+	{"f32", func() interface{} { return new(map[float32]int) }},
+	{"f64", func() interface{} { return new(map[float64]int) }},
+	{"txt", func() interface{} { return new(map[textKey]int) }},
+	{"txtp", func() interface{} { return new(map[*textKey]int) }},
 }
 
 func errClass(err error) string {
@@ -462,7 +546,37 @@ func runCase(id, kind, in string, heavy bool) []string {
 	add("emap", embedded(`{"k":`+in+`}`, new(map[string]json.RawMessage)))    // map values of RawMessage
 	add("eumap", embedded(`{"k":`+in+`,"j":`+in+`}`, new(map[string]capT)))   // map values of a json.Unmarshaler
 	add("eslice", embedded(`[`+in+`,`+in+`]`, new([]json.RawMessage)))        // slice elements of RawMessage
+	// the stream decoder: Decode until io.EOF; accept = every Decode succeeded and the stream ended cleanly
+	add("sdec", guard(func() string {
+		d := decoder.NewStreamDecoder(strings.NewReader(in))
+		for n := 0; ; n++ {
+			var v interface{}
+			err := d.Decode(&v)
+			if err == io.EOF {
+				return "ok:" + b2s(rlxStream(in))
+			}
+			if err != nil {
+				return errClass(err) + ":" + b2s(rlxStream(in))
+			}
+			if n > len(in)+2 {
+				return "loop:" + b2s(rlxStream(in))
+			}
+		}
+	}))
 	add("ucap", guard(func() string { var v capT; return errClass(sonic.UnmarshalString(in, &v)) }))
+	// every field kind of a typed struct (prefix E_: oracle on the wrapped document), first and last position
+	for i, f := range wideFields {
+		if i%2 == 0 {
+			add("E_f_"+f, embedded(`{"`+f+`":`+in+`,"zz":1}`, new(tWide)))
+		} else {
+			add("E_f_"+f, embedded(`{"zz":1,"`+f+`":`+in+`}`, new(tWide)))
+		}
+	}
+	for _, m := range mapKeyDsts {
+		add("E_k_"+m.name, embedded(`{`+in+`:1}`, m.mk()))
+	}
+	add("E_top_si", embedded(in, new(struct{ A int `json:"a,string"` })))
+	add("E_ptrs", embedded(`[`+in+`]`, new([]*tWide)))
 	add("dec", guard(func() string {
 		var v interface{}
 		d := decoder.NewDecoder(in)
@@ -743,6 +857,19 @@ func generate(tier string, seed uint64, corpus string, add func(kind, doc string
 			add("byte-lead", string([]byte{byte(b)})+d)
 			add("byte-mid", "["+d+string([]byte{byte(b)})+"]")
 		}
+	}
+	// quoted literals / numbers as the `,string` fields see them, with every possible byte where the closing quote belongs
+	for _, l := range []string{`"null`, `"nul`, `"nulll`, `"true`, `"false`, `"tru`, `"12`, `"-0`, `"1.5`, `"1e2`, `"`, `"x`, `"\"`, `"\"x\"`, `nul`, `null`, `tru`, `fals`} {
+		add("lit-quote", l)
+		add("lit-quote", l+`"`)
+		add("lit-quote", l+`""`)
+		for b := 0; b < 256; b++ {
+			add("lit-quote", l+string([]byte{byte(b)}))
+		}
+		add("lit-quote", l+`x"`)
+		add("lit-quote", l+` "`)
+		add("lit-quote", l+`}`)
+		add("lit-quote", l+`},"b":1`)
 	}
 	// byte sequences that Unicode (but not JSON) classes as white space, after a value
 	for _, u := range []string{"\u0085", "\u00a0", "\u1680", "\u2000", "\u2028", "\u2029", "\u202f", "\u205f", "\u3000", "\ufeff", "\x85", "\xa0", "\x0c", "\x0b", "\x1c", "\x1f"} {
